@@ -9,6 +9,7 @@ import (
 	"sync"
 	"time"
 
+	"github.com/chihaya/chihaya/bittorrent"
 	"github.com/chihaya/chihaya/frontend"
 )
 
@@ -69,7 +70,15 @@ func VerifHandle(f *Frontend, packet []byte, srcIP net.IP) (datagrams [][]byte, 
 	w := ResponseWriter{verifSrv, verifSink.LocalAddr().(*net.UDPAddr)}
 	func() {
 		defer func() { panicVal = recover() }()
-		_, _, herr = f.handleRequest(Request{Packet: packet, IP: srcIP}, w)
+		// the body of the goroutine serve() starts per datagram: handleRequest, then the metrics bookkeeping
+		var action string
+		var af *bittorrent.AddressFamily
+		action, af, herr = f.handleRequest(Request{Packet: packet, IP: srcIP}, w)
+		if f.EnableRequestTiming {
+			recordResponseDuration(action, af, herr, time.Millisecond)
+		} else {
+			recordResponseDuration(action, af, herr, time.Duration(0))
+		}
 	}()
 	// an end marker sent over the same socket pair: loopback delivery keeps the
 	// order, so everything read before it was sent by handleRequest
